@@ -7,7 +7,11 @@ use vstd::std_specs::cmp::OrdSpec;
 //@include prelude/core.rs
 //@include prelude/deps.rs
 //@include prelude/btc.rs
+//@include prelude/seqmutex.rs
 //@map /Set<OutPoint>/ => VxOutPointSet
+//@map /Arc<Mutex<State>>/ => VxSeqMutex<State>
+//@map /Arc<Mutex<Option<BlockDecodeState>>>/ => VxDecodeSlot
+//@map /Box<dyn CommitmentPointProvider>/ => VxProvider
 verus! {
 
 #[verifier::external_body]
@@ -60,5 +64,43 @@ impl State {
 //@end
 
 } // impl
+
+// ---- the monitor handles the node holds (ChainMonitorBase in a ready channel, ChainMonitor registered with the tracker):
+// both share one State behind a mutex (sequential model, prelude/seqmutex.rs) ----
+//@type vls-core/src/monitor.rs :: ChainMonitorBase
+#[verifier::external_body] pub struct VxProvider { _p: u8 }
+#[verifier::external_body] pub struct VxDecodeSlot { _p: u8 }
+//@type vls-core/src/monitor.rs :: ChainMonitor
+
+impl ChainMonitorBase {
+//@fn vls-core/src/monitor.rs :: impl ChainMonitorBase :: is_done props=C15
+    requires self.state.val.height < u32::MAX,
+    ensures r == safely_buried(self.state.val),                                                      //[C15.base.is-done-is-the-shared-state]
+//@sub /self\.get_state\(\)\.is_done\(\)/ => self.state.val.is_done()
+//@end
+
+//@fn vls-core/src/monitor.rs :: impl ChainMonitorBase :: forget_channel props=C15
+//@sigsub /&self/ => &mut self
+    ensures
+        // the only thing a forget request changes is the flag that lets a safely buried channel be pruned later
+        final(self).state.val == (State { saw_forget_channel: true, ..old(self).state.val }),       //[C15.base.forget-sets-only-the-flag]
+        final(self).funding_outpoint == old(self).funding_outpoint,
+//@sub /let mut state = self\.get_state\(\);/ => 
+//@sub /state\.saw_forget_channel = true;/ => self.state.val.saw_forget_channel = true;
+//@end
+
+//@fn vls-core/src/monitor.rs :: impl ChainMonitorBase :: forget_seen props=C15
+    ensures r == self.state.val.saw_forget_channel,                                                  //[C15.base.forget-seen]
+//@sub /self\.get_state\(\)\.saw_forget_channel/ => self.state.val.saw_forget_channel
+//@end
+}
+
+impl ChainMonitor {
+//@fn vls-core/src/monitor.rs :: impl ChainMonitor :: is_done props=C15
+    requires self.state.val.height < u32::MAX,
+    ensures r == safely_buried(self.state.val),                                                      //[C15.monitor.is-done-is-the-shared-state]
+//@sub /self\.get_state\(\)\.is_done\(\)/ => self.state.val.is_done()
+//@end
+}
 } // verus!
 fn main() {}
